@@ -9,7 +9,7 @@ COQ_CORR = 'corr_C19'
 N_QUICK = 2500
 N_THOROUGH = 12000
 THOROUGH_EXHAUSTIVE = False
-VM_CASES = 60          # the first cases are also evaluated inside Coq (vm_compute); the corpus minus its last entry
+VM_CASES = 67          # the first cases are also evaluated inside Coq (vm_compute); the corpus minus its last entry
 RULE = ('cases = corpus + random rules printed from abstract token lists (literal chunks incl. digits, "-", ".", '
         'non-ASCII; values containing CR (the wildcard marker), LF, NUL, TAB; plain wildcards in the three flavours :n <n> {n}; int/float/re/path filters in bottle and dotted '
         'flavour, named and anonymous; adjacent wildcards, adjacent literals, leading/trailing literals) x paths that '
@@ -180,6 +180,14 @@ def corpus():
         mk([L('files/'), W('p', 're', '.+', 'd<'), L('.txt')], '/files//a//b.txt'),
         mk([L('d/'), W(None, 're', '/?[a-z]+'), L('/'), W('q', 're', '/?[a-z]+', 'd{')], '/d//abc//q'),
         mk([L('files/'), W('p', 'path')], None, [], {'p': ['s', '/abs/path']}),
+        # ---- raw request paths with doubled slashes at their ends, first/last wildcard able to hold '/'
+        mk([L('files/'), W('p', 'path')], '/files/css//'),
+        mk([L('files/'), W('p', 'path')], '//files/css'),
+        mk([W('p', 'path')], '//a/b//'),
+        mk([W('p', 're', '.+', 'd<')], '/x//'),
+        mk([W('p', 're', '.+', 'd<'), L('/e')], '//x/e/'),
+        mk([W('p', 'path')], '///'),
+        mk([L('a/'), W('x')], '/a/v//'),
         # ---- several rules in one process: Route objects side by side / one router; repeated calls
         mk_multi('route', [[W('x', 'int')], [W('x', 'float')], [W('x')], [W('x', 're', '[a-z]+')], [W('x', 're', 'a*', 'd<')]],
                  [[0, '/7'], [1, '/7'], [2, '/7'], [0, '/7'], [3, '/ab'], [4, '/aa'], [1, '/1.5'], [0, None, [], {'x': ['s', '+3']}]],
@@ -320,6 +328,11 @@ def mutate(rng, p):
     if r < 0.8:
         return p + rng.choice(['/', '/x', '0', 'a'])
     return p[:i]
+
+
+def slashes(rng, p):
+    """doubled slashes at the ends of the raw request path (resolve's normalisation must be idempotent)"""
+    return rng.choice(['/', '//', '', '/']) + p + rng.choice(['/', '//', '///', '/'])
 
 
 def rand_pyval(rng):
@@ -467,6 +480,8 @@ def gen(rng, n):
                 p = '/' + ''.join(tok_value(rng, t) for t in toks)
                 if rng.random() < 0.2:
                     p = mutate(rng, p)
+                if rng.random() < 0.12:
+                    p = slashes(rng, p)
                 c = mk(toks, p)
             else:
                 # malformed stream: explicit arguments
@@ -496,6 +511,8 @@ def thorough():
             choices = [[t[1]] if t[0] == 'L' else vals[t[2]] for t in toks]
             for combo in itertools.product(*choices):
                 yield mk([list(t) for t in toks], '/' + ''.join(combo))
+                if toks[0][2:3] == ['path'] or toks[-1][2:3] == ['path']:
+                    yield mk([list(t) for t in toks], '//' + ''.join(combo) + '//')
 
 
 # --------------------------------------------------------------------------
@@ -545,10 +562,24 @@ def _handler(**kw):
 
 def _resolve(R, path):
     """-> (values in rule order, kwargs) or None; via the public resolve + the lookup it is built on"""
+    # the RAW request path goes through RadiRouter.resolve, the entry the application uses; the values of the
+    # anonymous wildcards (absent from the kwargs) are taken from the very lookup resolve performed, recorded on
+    # the way, never from a lookup of our own on a path we normalised ourselves
+    rd = R.radidict
+    if not hasattr(rd, '_verif_seen'):
+        inner = rd.get
+
+        def recording_get(route, allow_partial=False):
+            res = inner(route, allow_partial=allow_partial)
+            rd._verif_seen = res
+            return res
+        rd._verif_seen = None
+        rd.get = recording_get
+    rd._verif_seen = None
     ep, err = R.resolve(path, 'GET')
     if err is not None:
         return None
-    route, extra = R.radidict.get(path.strip('/'), allow_partial=True)
+    route, extra = rd._verif_seen
     return list(extra['param_values']), dict(ep[1]), list(extra['param_keys'])
 
 
@@ -761,7 +792,7 @@ def _observe_single(case, route=None):
     obs['url'] = b
     if b[0] == 'ok':
         u = ''.join(chr(c) for c in b[1])
-        m2 = _resolve(R, u)
+        m2 = _resolve(R, '/' + u)                 # as PATH_INFO
         if m2 is None:
             obs['rematch'] = None
         else:
